@@ -29,7 +29,7 @@ from __future__ import annotations
 
 import ast
 
-from ..astutil import attr_chain, callee_name, calls, is_name, text, unwrap_await
+from ..astutil import call_recv, attr_chain, callee_name, calls, is_name, text, unwrap_await
 from ..core import Result
 from ..flow import MustFlow, node_calls
 from ..model import AnchorMissing, Repo, walk_no_nested
@@ -62,7 +62,7 @@ def check_extends_cycle(repo: Repo, res: Result, rule: str = "C18-CYCLE") -> Non
         def gen(st):
             out = set()
             for c in calls(st):
-                if callee_name(c) == "add" and is_name(c.func.value, "seen"):
+                if callee_name(c) == "add" and is_name(call_recv(c), "seen"):
                     out.add("recorded")
             return out
 
@@ -106,7 +106,7 @@ def check_extends_cycle(repo: Repo, res: Result, rule: str = "C18-CYCLE") -> Non
             return text(e)
 
         keyt = ktext(seen_if.test.left) if seen_if is not None else None
-        adds = [ktext(c.args[0]) for c in calls(inner) if callee_name(c) == "add" and is_name(c.func.value, "seen")]
+        adds = [ktext(c.args[0]) for c in calls(inner) if callee_name(c) == "add" and is_name(call_recv(c), "seen")]
         loads = [ktext(c.args[0]) for c in calls(inner) if callee_name(c) == gt and c.args]
         if not adds or any(a != keyt for a in adds) or any(l != keyt for l in loads):
             res.add(rule, fq, f"key:{keyt}:{adds}:{loads}", f"{fq}: the name tested against `seen`, recorded in it and loaded must be the same expression", f.file, inner.lineno)
@@ -193,7 +193,7 @@ def run(repo: Repo) -> Result:
             idx["extends_raise"] = i
         if isinstance(st, ast.For) and text(st.iter) == "blocks":
             has = any(isinstance(n, ast.If) and "in seen_block_names" in text(n.test) and isinstance(n.body[0], ast.Raise) and "TemplateInheritanceError" in text(n.body[0]) for n in ast.walk(st))
-            adds = any(callee_name(c) == "add" and text(c.func.value) == "seen_block_names" for c in calls(st))
+            adds = any(callee_name(c) == "add" and text(call_recv(c)) == "seen_block_names" for c in calls(st))
             if has and adds:
                 idx["dup_loop"] = i
         if isinstance(st, ast.Expr) and isinstance(st.value, ast.Call) and callee_name(st.value) == "_store_blocks":
